@@ -42,14 +42,16 @@ func ZZH_C08_verify_proofs() {
 	exec := zzNewExec(1, big.NewInt(0))
 	modes := []string{"serial", "parallel"}
 	exec.config.ProofType = modes[zz.Choice("proofType", 2)]
-	n := 1 + zz.Choice("ntx", 6)
+	n := 1 + zz.Choice("ntx", zz.Tier(6, 13))
 	sv := &zzStubVerify{verdict: make([]uint8, n), seen: make([]int, n)}
 	exec.ibtpVerify = sv
 	var txs []pb.Transaction
 	rejectedNoErr := false
 	for i := 0; i < n; i++ {
-		sv.verdict[i] = zz.U8("verdict")
-		zz.Assume(sv.verdict[i] <= 2)
+		if n <= 6 || i == 0 || i == n-1 || i == n/2 {
+			sv.verdict[i] = zz.U8("verdict")
+			zz.Assume(sv.verdict[i] <= 2)
+		} // (thorough sizes 7..13: symbolic verdicts at the first, middle and last position only)
 		if sv.verdict[i] == 2 {
 			rejectedNoErr = true
 		}
